@@ -13,10 +13,10 @@ import (
 	"io"
 	"os"
 	"path/filepath"
+	"runtime"
 	"sort"
 	"strings"
 	"sync"
-	"runtime"
 	"sync/atomic"
 	"testing"
 	"time"
@@ -81,9 +81,9 @@ type EnvOpts struct {
 	OPLLocation     string // explicit location (file://...), takes precedence over OPL
 	NamespacesValue any    // raw value for the "namespaces" key (legacy URI string etc.)
 	Strict          bool
-	MaxDepth        int // 0 => default (5)
-	MaxWidth        int // 0 => default (100)
-	FileDB          bool // on-disk WAL database instead of shared-cache memory
+	MaxDepth        int    // 0 => default (5)
+	MaxWidth        int    // 0 => default (100)
+	FileDB          bool   // on-disk WAL database instead of shared-cache memory
 	DSN             string // explicit DSN (overrides FileDB)
 	Contextualizer  ketoctx.Contextualizer
 	Extra           map[string]any
